@@ -18,6 +18,7 @@ mod rpx_unit;
 mod cssws_unit;
 mod bmc_unit;
 mod groupdet_unit;
+mod grouplink_unit;
 
 pub struct Outcome {
     pub found: bool,
@@ -78,6 +79,8 @@ fn main() {
         ("BMC", "run") => bmc_unit::run(&input.unwrap()),
         ("GROUPDET", "search") => groupdet_unit::search(),
         ("GROUPDET", "run") => groupdet_unit::run(&input.unwrap()),
+        ("GROUPLINK", "search") => grouplink_unit::search(),
+        ("GROUPLINK", "run") => grouplink_unit::run(&input.unwrap()),
         ("TOTAL", "search") => total_unit::search(),
         ("TOTAL", "run") => total_unit::run(&input.unwrap()),
         _ => {
